@@ -18,6 +18,7 @@ package tree
 
 import (
 	"context"
+	"unicode/utf8"
 
 	"github.com/dolthub/go-mysql-server/sql"
 
@@ -91,3 +92,8 @@ func verif_x_idoc_Compare(i IndexedJsonDocument, ctx context.Context, other inte
 }
 
 var _ = val.AdaptiveValue(nil)
+
+// verif_fullRune: utf8.FullRune, uninterpreted (the same bytes give the same answer).
+func verif_fullRune(b []byte) bool { return utf8.FullRune(b) }
+
+func verif_x_utf8_FullRune(p []byte) (ok bool) { return utf8.FullRune(p) }
